@@ -11,6 +11,9 @@ PROP = {
         'point before every shared access); code between two points is thread-local',
         'the crossbeam unbounded channel is a linearizable FIFO queue (send = push back, try_recv = pop front) '
         'and is never disconnected (both ends are owned by the TaskBlockingQueue)',
+        'BlockingMap: DashMap::entry is atomic per address (get_or_create is one atomic step of the map '
+        'model); a queue dies exactly when its last holder (sender or Arc) is dropped - the map itself and '
+        'CachedSenderFactory only hold Weak references; a BlockingHandle is not held beyond its controller',
         'fewer than 2^32 controller threads / live BlockingHandles (u32 blocker count does not wrap); '
         'running_cmd (i64) does not wrap',
         'the inner (backend) sender either accepts a task (keeps the CounterTask until the reply) or answers '
@@ -27,6 +30,11 @@ PROP = {
     'trusted': [
         'hand-written transliteration UmModel/Barrier.lean of blocking.rs/biatomic.rs (checked differentially: '
         'same schedule on the real TaskBlockingQueue under the deterministic scheduler and on step?)',
+        'hand-written UmModel/BarrierMap.lean (addr -> registered queue id, liveness = some live holder); '
+        'tied to the code by random acquire/drop/drop-all/probe histories on one real BlockingMap: queue '
+        'creations are counted at the injected sender factory, queue identity is observed by Arc::ptr_eq and '
+        'behaviourally (start_blocking through the controller side must queue a command sent through the '
+        'sender side)',
         'harness scheduler umh_barrier (parks OS threads at the hook points; a thread that fails to reach '
         'a point within 20 s aborts the run as a harness failure)',
     ],
@@ -45,7 +53,10 @@ CHECK = {
             'are exact, every enqueue is matched by exactly one of queued / popped / re-dispatched, a '
             'task is never both handed and queued, Retry results leave the task untouched with the caller, and '
             'in every quiescent state the queue is empty and each queued task was re-dispatched exactly once; '
-            'a Blocking hint is never handed. Known finding F11a: a release_all that outlives its blocking '
+            'a Blocking hint is never handed; (which queue) after any history of acquiring and dropping senders / '
+            'controllers on a BlockingMap - including complete release and re-use of an address - live holders '
+            'have the same queue iff they have the same address, so the per-queue theorems apply to the '
+            'client-path / migration-path pair the proxy actually uses. Known finding F11a: a release_all that outlives its blocking '
             'period re-dispatches commands of the next period while it is still blocking (proved witness; the '
             'timing clause is proved only for windows that start with no release_all in progress).',
     'note': 'Trusted: Lean kernel; SeqCst => interleaving semantics; crossbeam channel as FIFO; model '
